@@ -93,6 +93,7 @@ FIXED = [
     "fixed: property=C09 1c8a0f0 a program of more than 500 entities with two separate circuits (or unconnected placed entities, or --power-poles small on a large program): the layout solver's component decomposition shifted every component after the first along x, and put a component it could not solve on a plain grid row, including place()d entities and grid poles; user entities ended up tens to hundreds of tiles from their coordinates",
     "fixed: property=C02 45b14ca `Bundle x = ((m1 == 4) : r) / m1;` (a gated bundle divided by the scalar that also drives the gate): the each-operand read both wire colours and counted m1 among the bundle's members; the colour lookup added in 7043904 took every recorded entry between the two combinators, including a spanning-tree hop of m1's own fan-out (regression of that fix, found by the thorough tier of C02)",
     "fixed: property=C15 ef30f0b `func inner(Signal s) { Signal x = s * 2; return x + 1; } func outer(Signal x) { return inner(x + 5); }`: while inner was inlined the outer function's parameter x stayed visible and was looked up before inner's local x; outer(a) returned a + 1 instead of (a + 5) * 2 + 1 (found through a sub-agent's side remark, C01f)",
+    "fixed: property=C01 88e73b8 `(a > 2 && b < 9) : 4` with a and b two inputs on one signal type: the rows of the folded multi-condition decider carried no network selection, so each row compared the sum of both inputs although they arrive on different wire colours (found through a sub-agent's side remark, C01f)",
     "fixed: property=C01 832242e `(c : k) && x` / `(c : k) || (d : j)` with constants other than 0/1 took the boolean shortcut (x*y, (x+y)>0) and yielded k or 0 instead of 1",
     "fixed: property=C01 7701d37 a comparison with an integer literal on the left (`3 < a`) was emitted as `signal-0 < a`",
 ]
